@@ -64,11 +64,15 @@ class NoRecording:
 
 
 def install_lu():
-    """scipy.linalg.lu_factor/lu_solve as seen by openmdao.solvers.linear.direct -> exact elimination"""
-    from . import linalg
+    """scipy.linalg.lu_factor/lu_solve and scipy.sparse.linalg.splu/inv as seen by openmdao.solvers.linear.direct
+    -> exact elimination; scipy.sparse constructors in the matrix/jacobian modules -> symx.sparse"""
+    from . import linalg, sparse
     import openmdao.solvers.linear.direct as D
     import scipy.linalg
-    if getattr(D.scipy.linalg, '_symx', False):
+    import scipy.sparse
+    import scipy.sparse.linalg
+    sparse.install()
+    if getattr(getattr(D.scipy, 'linalg', None), '_symx', False):
         return
 
     class _SL:
@@ -79,9 +83,23 @@ def install_lu():
         lu_factor = staticmethod(linalg.lu_factor)
         lu_solve = staticmethod(linalg.lu_solve)
 
+    class _SPL:
+        def __getattr__(self, n):
+            return getattr(scipy.sparse.linalg, n)
+        splu = staticmethod(sparse.splu)
+        inv = staticmethod(sparse.inv)
+
+    class _SP:
+        def __getattr__(self, n):
+            return getattr(scipy.sparse, n)
+        linalg = _SPL()
+        issparse = staticmethod(sparse.issparse)
+        csc_matrix = sparse.csc_matrix
+
     class _S:
         def __getattr__(self, n):
             return getattr(D_scipy, n)
         linalg = _SL()
+        sparse = _SP()
     D_scipy = D.scipy
     D.scipy = _S()
